@@ -32,6 +32,7 @@ type Job struct {
 	Harness   string           `json:"harness"`
 	Params    map[string]int64 `json:"params"`
 	Fuel      int64            `json:"fuel"`
+	Depth     int              `json:"depth"` // call depth budget (default 400)
 	TimeoutS  float64          `json:"timeout_s"`
 	MaxPaths  int              `json:"max_paths"`
 	QueryMs   int              `json:"query_ms"`
@@ -170,6 +171,10 @@ func runJob(l *Loaded, job Job) (res JobResult) {
 		ip.seeded["strconv.ErrRange"] = ip.errRange
 		ip.seeded["strconv.ErrSyntax"] = ip.errSyntax
 		ip.alloc.total = Const(64, 0)
+		ip.maxDepth = 400
+		if job.Depth > 0 {
+			ip.maxDepth = job.Depth
+		}
 		ex.render = ip.renderObs
 		// package initialisers of the repository packages (and the harness runtime)
 		for path, p := range l.pkgs {
